@@ -209,8 +209,19 @@ def call(cb: Any, e: ast.Call, s: St, quiet: bool) -> tuple[Any, St]:
     if fn in ('torch.nn.functional.pad', 'F.pad'):
         x = args[0] if args else Top('')
         pt = e.args[1] if len(e.args) > 1 else kw(e, 'pad')
-        if isinstance(x, TV) and isinstance(pt, ast.Tuple):
+        pads = None
+        if isinstance(pt, (ast.Tuple, ast.List)):
             pads = [norm(p) for p in pt.elts]
+        elif isinstance(pt, ast.BinOp) and isinstance(pt.op, ast.Mult):
+            # (a, b) * 2 — a repeated literal sequence
+            seq, cnt = (pt.left, pt.right) if isinstance(pt.left, (ast.Tuple, ast.List)) else (pt.right, pt.left)
+            if isinstance(seq, (ast.Tuple, ast.List)) and isinstance(cnt, ast.Constant) and isinstance(cnt.value, int) and 0 < cnt.value <= 4:
+                pads = [norm(p) for p in seq.elts] * cnt.value
+        elif isinstance(pt, ast.Name):
+            ds = it.prog.local_defs(f, pt.id)
+            if len(ds) == 1 and isinstance(ds[0], (ast.Tuple, ast.List)):
+                pads = [norm(p) for p in ds[0].elts]
+        if isinstance(x, TV) and pads is not None and len(pads) % 2 == 0:
             axes = list(x.axes)
             n = len(axes)
             for k in range(0, len(pads), 2):
